@@ -55,7 +55,10 @@ def A_serde(ctx, lib):
                 found = "%s %s" % (flow.show(src), names)
             ctx.ob(rule, "vectorize.serialize-whole-map", ok, where=vb.where(), expected="target.into_iter().collect() - every entry", found=found)
         else:
+            # T::from_iter(container), or its other spelling container.into_iter().collect()
             fi = [e for bb, t, ci, e in calls if e[0] == "call" and flow.last(e[2]) == "from_iter"]
+            if not fi:
+                fi = [e for bb, t, ci, e in calls if e[0] == "call" and flow.last(e[2]) == "collect" and [s_[0] for s_ in flow.chain_of(e)[1]] == ["into_iter", "collect"]]
             ok = len(fi) == 1 and not [e for bb, t, ci, e in calls if e[0] == "call" and flow.last(e[2]) in ("skip", "take", "filter", "step_by", "skip_while", "take_while", "truncate", "pop", "remove", "retain", "dedup")]
             ctx.ob(rule, "vectorize.deserialize-whole-vector", ok, where=vb.where(), expected="T::from_iter(container) - every entry", found=[flow.show(e)[:120] for e in fi])
 
